@@ -10,7 +10,7 @@ trap 'git -C /repo worktree remove --force "$WT" 2>/dev/null; rm -rf "$WT"' EXIT
 cd "$WT"
 build() { cmake -G Ninja -S . -B _build >/dev/null 2>&1 && cmake --build _build 2>&1 | tail -2; }
 rundemo() {
-  if [ -f "$OUT/demo$I.sh" ]; then cp "$OUT"/demo$I.* . 2>/dev/null; bash "$OUT/demo$I.sh" > demo.log 2>&1; echo $?
+  if [ -f "$OUT/demo$I.sh" ]; then cp "$OUT"/demo$I.* . 2>/dev/null; bash "$OUT/demo$I.sh" "$WT" > demo.log 2>&1; echo $?
   else
     cp "$OUT/demo$I.cc" demo.cc
     EXTRA=$(grep -o 'DEMO-BUILD-FLAGS:.*' demo.cc | sed 's/DEMO-BUILD-FLAGS://')
